@@ -460,6 +460,9 @@ func (h *c16Hist) pickClass(rng *kit.RNG) string {
 	case x < p.Equal:
 		return "equal"
 	case x < p.Equal+p.Stale:
+		if rng.Chance(1, 4) {
+			return "negative" // below -1: not "no expectation", can never be right
+		}
 		return "stale"
 	case x < p.Equal+p.Stale+p.Future:
 		return "future"
@@ -483,6 +486,8 @@ func c16Expected(rng *kit.RNG, class string, believed int64) int64 {
 		return believed + int64(rng.Range(1, 3))
 	case "zero":
 		return 0
+	case "negative":
+		return []int64{-2, -3, -1000, -1 << 31, -1 << 63}[rng.Intn(5)]
 	}
 	return -1
 }
@@ -595,7 +600,7 @@ func (h *c16Hist) sequential(rng *kit.RNG, raw *c16Raw) {
 	as := h.newAsync()
 	defer as.close()
 	for i := 0; i < h.seqLen && !h.failed.Load(); i++ {
-		class := []string{"equal", "equal", "stale", "future", "zero", "any"}[rng.Intn(6)]
+		class := []string{"equal", "equal", "stale", "future", "zero", "any", "negative"}[rng.Intn(7)]
 		e := c16Expected(rng, class, next)
 		policy := h.policyFor(rng)
 		var op *c16Op
@@ -1021,7 +1026,7 @@ func TestVerifC16Server(t *testing.T) {
 	}
 	rep := kit.NewReport("C16", "server-"+strings.ToLower(mode))
 	defer rep.Write()
-	rep.SetRule("histories on a real single-node server: a fresh stream with optimistic concurrency control (per-stream request flag or server-wide setting), an optional sequential prefix (verdicts fully determined), then N in {2..16} concurrent publishers (apiServer.Publish, PublishAsync session, raw envelopes with own ack inbox; ack policy " + mode + ") with expected offsets equal/stale/future/0/-1 drawn from what each publisher last saw; server BatchMaxMessages/BatchMaxTime and segment size varied; oracle = final log scan + ack consistency at the ack.send hook + porcupine linearizability of the client-boundary history; non-trivial = history had an expected offset with >=2 competitors and exactly one winner, an equal guess that lost the race, an accepted -1 publish, a rejected stale and a rejected future guess; distinct = config + publishers + outcome counts")
+	rep.SetRule("histories on a real single-node server: a fresh stream with optimistic concurrency control (per-stream request flag or server-wide setting), an optional sequential prefix (verdicts fully determined), then N in {2..16} concurrent publishers (apiServer.Publish, PublishAsync session, raw envelopes with own ack inbox; ack policy " + mode + ") with expected offsets equal/stale/future/0/-1/below -1 drawn from what each publisher last saw; server BatchMaxMessages/BatchMaxTime and segment size varied; oracle = final log scan + ack consistency at the ack.send hook + porcupine linearizability of the client-boundary history; non-trivial = history had an expected offset with >=2 competitors and exactly one winner, an equal guess that lost the race, an accepted -1 publish, a rejected stale and a rejected future guess; distinct = config + publishers + outcome counts")
 	rep.Assume("publishes without an answer (fire-and-forget, expired deadline, raw envelope with ack policy NONE) are decided from the final log: stored = applied at that offset, absent = never applied; their return time is the end of the history")
 	rep.Assume("an unanswered -1 publish that is absent from the final log is not judged (NATS core delivery is at-most-once)")
 	remove := c16InstallHook()
